@@ -50,13 +50,15 @@ type ScriptPlan struct {
 	HRRThenHello2 bool `json:"hrr_then_hello2,omitempty"`
 	// InnerSIDLen > 0: a non-conforming encoder left a legacy_session_id of that
 	// length in EncodedClientHelloInner (the outer one must still win).
-	InnerSIDLen int          `json:"inner_sid_len,omitempty"`
-	Mutations   []Mutation   `json:"mutations,omitempty"`
-	Chunks      []int        `json:"chunks,omitempty"`
-	Trailer     []TrailerRec `json:"trailer,omitempty"` // records that follow the hello
-	ReadBuf     int          `json:"read_buf,omitempty"`
-	Expect      string       `json:"expect"` // accept | passthrough | reject (passthrough or abort) | abort
-	Alerts      []int        `json:"alerts,omitempty"`
+	InnerSIDLen int `json:"inner_sid_len,omitempty"`
+	// OuterSIDEmpty: the outer hello (and hence the true inner) has an empty legacy_session_id.
+	OuterSIDEmpty bool         `json:"outer_sid_empty,omitempty"`
+	Mutations     []Mutation   `json:"mutations,omitempty"`
+	Chunks        []int        `json:"chunks,omitempty"`
+	Trailer       []TrailerRec `json:"trailer,omitempty"` // records that follow the hello
+	ReadBuf       int          `json:"read_buf,omitempty"`
+	Expect        string       `json:"expect"` // accept | passthrough | reject (passthrough or abort) | abort
+	Alerts        []int        `json:"alerts,omitempty"`
 }
 
 type TrailerRec struct {
@@ -182,6 +184,9 @@ func buildScript(seed uint64, p *ScriptPlan) (*built, error) {
 	b.pair = pair
 	inner := pair.Inner
 	outer := pair.Outer
+	if p.OuterSIDEmpty {
+		inner.SessionID, outer.SessionID = nil, nil
+	}
 	from, to := pair.From, pair.To
 	if !p.Compress {
 		from, to = 0, 0
